@@ -218,6 +218,42 @@ reg('C17', 'exploration',
     'Trusted: pkgconf as the reader; vf/ref/pcref.py comparator and reference .pc writer.',
     'DESIGN.md §2 C17')
 
+reg('C07', 'exploration',
+    'compiler invocations recorded by tracing wrappers around the real gcc/g++/clang, program '
+    'output and exit status of the back end, over generated edit histories of C/C++ projects; '
+    'header names admitted by calibration against hand-written Makefile / build.ninja files fed '
+    'with the compilers raw -MMD output',
+    'After each edit (modify / add / remove-include-then-delete / rename / move header, edit '
+    'sources, no-op, clean) and build: exit 0, program output equals the model checksum, compiled '
+    'TUs are a superset of the model must-recompile set, a no-op compiles and links nothing, a '
+    'vanished header that is no longer included never blocks the build, clean removes every '
+    'product and clean+build restores them. Make and the reference Ninja.',
+    'Trusted: the include-DAG model in vf/gen/c07gen.py; wrappers; refninja depfile grammar.',
+    'DESIGN.md §2 C07')
+reg('C18', 'exploration',
+    'member lists and contents of archives produced by the real dist targets (doppel) compared '
+    'with the generator model of what the scripts read; the unpacked archive is configured and '
+    'rebuilt with the stub tool chain and compared step by step with the original build',
+    'dag graphs extended with find_files variants, submodules with their own scripts/options, '
+    'extra_dist, header_directory and dist=False on twelve file-creating builtins; archives '
+    '(zip, gzip, bzip2; before and after a build; after files were added to cached search '
+    'directories) must contain every required file byte-identical, no dist=False file, nothing '
+    'unmentioned and nothing from the build dir, under one top-level directory.',
+    'Trusted: vf/ref/c18ref.py (glob/extra/exclude/filter and distribution model); doppel.',
+    'DESIGN.md §2 C18')
+reg('C19', 'exploration',
+    'probe logs written by generated scripts during real configure / regenerate runs (name '
+    'visibility, submodule() return values, argv namespaces), paths in compile_commands.json, '
+    'Makefile prerequisites and on disk after a stub build, compared with the generator model',
+    'Random submodule trees (depth <= 4, ../ edges, repeated inclusion, option submodules, raising '
+    'children) where every script probes every name assigned anywhere; 14 target kinds with '
+    'inputs/outputs/include dirs/extra_deps in current, nested, parent and sibling directories; '
+    'project arguments in plain / --x- / mixed spellings incl. enable/with pairs, compared across '
+    'spellings, with an independent argparse-semantics model, and across three kinds of '
+    'regeneration (same cwd, other cwd + perturbed environment, triggered by make).',
+    'Trusted: vf/gen/c19gen.py simulator and vf/ref/c19args.py.',
+    'DESIGN.md §2 C19')
+
 NOT_APPLICABLE = {}
 
 ALL = ['C%02d' % i for i in range(1, 21)]
